@@ -87,7 +87,7 @@ def gen_tables(srcdir):
     d = read(srcdir, "echsd.c")
     i2t = func_body(d, "instant_to_tstamp")
     table("__mon_yday", i2t, "echsdMonYday", 14)
-    m = re.search(r"t\s*\+=\s*(\d+)\s*\*\s*86400UL", i2t)
+    m = re.search(r"t\s*\+=\s*(\d+)L?\s*\*\s*86400U?L", i2t)
     if not m:
         raise ValueError("instant_to_tstamp: epoch offset not found")
     out.append("def echsdEpochDays : Nat := %s\n" % m.group(1))
